@@ -27,7 +27,7 @@ package eventlog
 //@   sweep[C07]
 //@   alloc 2 * (old(rdLeft)[ref(r)] - rdLeft[ref(r)]) + 512
 //@   ensures[C07,C18] rdLeft[ref(r)] >= 0 && rdLeft[ref(r)] <= old(rdLeft)[ref(r)] && forall(x, Int, x != ref(r) ==> rdLeft[x] == old(rdLeft)[x])
-//@   ensures[C18] err == nil ==> old(rdLeft)[ref(r)] - rdLeft[ref(r)] >= len(*data) + 1
+//@   ensures[C18] err == nil ==> old(rdLeft)[ref(r)] - rdLeft[ref(r)] >= len(*data)
 
 //@ func (*TaggedDigest).Unmarshal
 //@   requires d != nil && r != nil && rdLeft[ref(r)] >= 0
